@@ -32,7 +32,8 @@ def norm_lk(lk):
 
 
 def ndecl(max_body):
-    return 2 * 2 * sum(3 ** k for k in range(max_body + 1))
+    # 2 methods x (bodies with and without trailing wildcard + the catch-all + two patterns on the longer host), SpaceC13.Patterns
+    return 2 * (2 * sum(3 ** k for k in range(max_body + 1)) + 3)
 
 
 def write_picks(path, tuples):
@@ -98,8 +99,17 @@ def tlc_validate(ctx, blocks, tag, strict=False):
                 owner.append(bi)
         p = os.path.join(wd, "trace.ndjson")
         write_ndjson(p, flat)
-        ok, hwm, r = ctx.tlc_trace(wd, "EndpointPolicyTrace", p,
-                                   cfg="EndpointPolicyTrace_strict.cfg" if strict else "EndpointPolicyTrace.cfg", timeout=900)
+        # the readings of the open points this implementation may still be using (see compare_and_judge)
+        modeset = sorted(getattr(ctx, "c13_modeset", None) or (0, 1, 2, 3))
+        cfgname = "EndpointPolicyTrace_run%s.cfg" % ("_strict" if strict else "")
+        with open(os.path.join(wd, cfgname), "w") as f:
+            f.write("CONSTANTS\n  ModeSet = {%s}\n  TolerateShadow = %s\nSPECIFICATION TraceSpec\nCONSTRAINT HWM\nPOSTCONDITION Post\nCHECK_DEADLOCK FALSE\n"
+                    % (", ".join(str(m) for m in modeset), "FALSE" if strict else "TRUE"))
+        ok, hwm, r = ctx.tlc_trace(wd, "EndpointPolicyTrace", p, cfg=cfgname, timeout=900)
+        final = set(modeset)
+        for line in r.out.splitlines():
+            if line.startswith('<<"MODES", '):
+                final = set(int(x) for x in line[line.index("{") + 1:line.index("}")].split(",") if x.strip())
         shadow = []
         for line in r.out.splitlines():
             if line.startswith('<<"KF-SHADOW", '):
@@ -107,6 +117,8 @@ def tlc_validate(ctx, blocks, tag, strict=False):
                 shadow.append((owner[k - 1], flat[k - 1]))
         if ok:
             n_out = sum(1 for e in flat if e["ev"] == "out")
+            if not strict and tag not in ("repro", "selftest", "replay"):
+                ctx.__dict__.setdefault("c13_final_modes", []).append(final)
             return n_out, rejections, shadow
         if hwm < 1 or hwm >= len(flat):
             raise Broken("trace validation made no progress (%s): %r\n%s" % (tag, r, r.out[-2000:]))
@@ -274,60 +286,87 @@ def rand_group(rng, nreq):
 
 
 # ------------------------------------------------------------------------------------ run
+ALL_MODES = frozenset((0, 1, 2, 3))
+
+
 def compare_and_judge(ctx, binary, groups, reals, origin, sample_frac, seen_cases):
-    """model outcome vs real outcome per case; returns blocks for trace validation (sample + everything not plainly ok)"""
-    drift, blocks, nshadow = 0, [], 0
+    """model outcome vs real outcome per case.  Returns (drift, blocks for trace validation, n shadow, modeset):
+    modeset = the readings of the open points (EndpointPolicyP modes) under which TLC accepted EVERY case whose real
+    outcome equals the model's - one reading must explain the whole implementation; if there is none, the reading with the
+    fewest failures, and the failing cases go to trace validation (which then rejects them)."""
+    drift, nshadow = 0, 0
     classes = ctx.cov.setdefault("input_classes", {})
-    for g, real in zip(groups, reals):
-        if any(o["err"] for o in real["orders"]):
-            raise Broken("BuildEndpointPolicyTree rejected a generated configuration: %s" %
-                         [o["err"] for o in real["orders"] if o["err"]][:1])
-        must = set()
+    must = [set() for _ in groups]
+    recs = []          # (group index, request index, am, sm) of cases that do not accept every reading
+    for gi, (g, real) in enumerate(zip(groups, reals)):
+        live = []
+        for oi in range(len(g["orders"])):
+            rej, err = bool(g["exp"][oi]["rej"]), bool(real["orders"][oi]["err"])
+            if rej != err:
+                drift += 1
+                if err:
+                    ctx.notes.append("configuration refused by the real loader but not by the model: %s" % real["orders"][oi]["err"][:160])
+                else:
+                    must[gi].update(range(len(g["reqs"])))     # loaded although the model refuses it: judge every outcome
+            elif not rej:
+                live.append(oi)
         for ri, rq in enumerate(g["reqs"]):
             outs = []
-            for oi in range(len(g["orders"])):
-                exp, out = g["exp"][oi][ri], real["orders"][oi]["outs"][ri]
+            for oi in live:
+                exp, out = g["exp"][oi]["outs"][ri], real["orders"][oi]["outs"][ri]
                 ctx.cov["evaluations"] += 1
                 if not (exp["sel"] or out["sel"] or exp["dsel"] or out["dsel"] or exp["lk"]["match"] or out["lk"]["match"]):
                     same = True       # nothing matched, nothing selected on either side (the bulk of the space)
                 else:
                     same = (norm_sel(exp["sel"]) == norm_sel(out["sel"]) and norm_sel(exp["dsel"]) == norm_sel(out["dsel"])
                             and norm_lk(exp["lk"]) == norm_lk(out["lk"]))
-                for c in exp["cls"] + ([exp["v"]] if exp["v"] != "ok" else []):
+                for c in exp["cls"]:
                     classes[c] = classes.get(c, 0) + 1
                 if not same:
                     drift += 1
-                    must.add(ri)
-                elif exp["v"] == "shadow":
-                    # TLC judged exactly this input and outcome: the recorded finding class (a sample of these is
-                    # also sent through trace validation below)
-                    nshadow += 1
-                    if nshadow <= 3 or ctx.rng.random() < 0.05:
-                        must.add(ri)
-                    if nshadow == 1:
-                        report_shadow(ctx, {"decls": g["decls"]}, rq, origin)
-                elif exp["v"] != "ok":
-                    must.add(ri)          # judged again on the real outcome by trace validation
+                    must[gi].add(ri)
+                elif len(exp["am"]) < 4:
+                    recs.append((gi, ri, frozenset(exp["am"]), frozenset(exp["sm"])))
                 outs.append(out)
             if any(o != outs[0] for o in outs) and any(
                     (norm_sel(o["sel"]), norm_sel(o["dsel"]), norm_lk(o["lk"])) !=
                     (norm_sel(outs[0]["sel"]), norm_sel(outs[0]["dsel"]), norm_lk(outs[0]["lk"])) for o in outs):
-                must.add(ri)
+                must[gi].add(ri)
             key = (tuple(sorted((d["m"], render(d["h"], d["p"])) for d in g["decls"])), rq["m"], render(rq["h"], rq["p"]))
             if key not in seen_cases:
                 seen_cases.add(key)
                 if rq.get("nm", 0) >= 2:
                     ctx.cov["distinct_nontrivial"] += 1
-        pick = set(must)
+    fails = {mt: sum(1 for r in recs if mt not in r[3]) for mt in range(4)}
+    modeset = [mt for mt in range(4) if fails[mt] == 0]
+    if not modeset:
+        best = min(range(4), key=lambda mt: (fails[mt], mt))
+        ctx.notes.append("no reading of the open points explains every generated case (failures per reading: %s); judging under reading %d" % (fails, best))
+        modeset = [best]
+    ms = frozenset(modeset)
+    for gi, ri, am, sm in recs:
+        if not (sm & ms):
+            must[gi].add(ri)              # TLC's verdict for exactly this input and outcome: rejected under the implementation's reading
+        elif not (am & ms):
+            # the recorded finding class (a sample of these is also sent through trace validation below)
+            nshadow += 1
+            classes["shadow"] = classes.get("shadow", 0) + 1
+            if nshadow <= 3 or ctx.rng.random() < 0.05:
+                must[gi].add(ri)
+            if nshadow == 1:
+                report_shadow(ctx, {"decls": groups[gi]["decls"]}, groups[gi]["reqs"][ri], origin)
+    blocks = []
+    for gi, (g, real) in enumerate(zip(groups, reals)):
+        pick = set(must[gi])
         for ri in range(len(g["reqs"])):
             if ctx.rng.random() < sample_frac:
                 pick.add(ri)
-        if pick:
+        if pick and any(not o["err"] for o in real["orders"]):
             blocks.append(events_of(g, real, sorted(pick)))
-    return drift, blocks, nshadow
+    return drift, blocks, nshadow, modeset
 
 
-def judge_blocks(ctx, binary, blocks, origin, tag):
+def judge_blocks(ctx, binary, blocks, origin, tag, reproduce=True):
     """TLC trace validation of blocks in parallel chunks; reports rejections (reproduced) and known-finding hits"""
     if not blocks:
         return 0
@@ -340,7 +379,7 @@ def judge_blocks(ctx, binary, blocks, origin, tag):
             cur, n = [], 0
     if cur:
         chunks.append(cur)
-    res = parallel(lambda it: tlc_validate(ctx, it[1], "%s%d" % (tag, it[0])), list(enumerate(chunks)), n=6)
+    res = parallel(lambda it: tlc_validate(ctx, it[1], "%s%d" % (tag, it[0])), list(enumerate(chunks)), n=4)
     total = 0
     for (n_ok, rejections, shadow), chunk in zip(res, chunks):
         total += abs(n_ok)
@@ -352,7 +391,20 @@ def judge_blocks(ctx, binary, blocks, origin, tag):
                 k -= 1
             report_shadow(ctx, b[0], b[k], origin)
         for rej in rejections[:2]:
-            if len(ctx.violations) < 6:       # each report costs a re-execution and a TLC run; a handful of witnesses is enough
+            if not reproduce:
+                # a concurrent recording: the outcome depends on the interleaving and cannot be re-executed exactly; the recorded
+                # outcome itself was rejected by TLC, it is confirmed by validating that single recorded outcome once more
+                ev = [rej["group"], rej["req"]] + rej["outs"][rej["at"]:rej["at"] + 1]
+                _, rej2, _ = tlc_validate(ctx, [ev], "repro", strict=True)
+                if not rej2:
+                    raise Broken("rejected concurrent outcome accepted on its own: %s" % json.dumps(describe(rej["group"], rej["req"]))[:400])
+                w = describe(rej["group"], rej["req"])
+                w.update({"class": "not-accepted", "origin": origin, "outs": [{"sel": o["sel"], "lk": o["lk"]} for o in rej["outs"][:2]]})
+                if len(ctx.violations) < 6:
+                    ctx.violation(w, {"concurrent": True, "trace": ev, "storm_group": ctx.c13_storm_groups[rej["group"]["src"]],
+                                      "group": {"decls": [dict(d, t=i + 1) for i, d in enumerate(rej["group"]["decls"])],
+                                                "orders": [rej["outs"][0]["ord"]], "reqs": [{"m": rej["req"]["m"], "h": rej["req"]["h"], "p": rej["req"]["p"]}]}})
+            elif len(ctx.violations) < 6:       # each report costs a re-execution and a TLC run; a handful of witnesses is enough
                 report_rejection(ctx, binary, rej, origin)
             else:
                 ctx.notes.append("further rejection not individually reproduced: %s" % json.dumps(describe(rej["group"], rej["req"]))[:300])
@@ -387,40 +439,55 @@ def run(ctx):
     # non-vacuity: the model of the code before the two fixes must be refuted; the shadow class must be in the space.
     # The five TLC runs are independent and run side by side.
     nd = ndecl(2)
-    npairs, ntriples = (25, 50) if not T else (0, 2000)
+    npairs, ntriples = (20, 35) if not T else (0, 2000)
     picks = set()
     while len(picks) < npairs:
         picks.add(tuple(sorted(ctx.rng.sample(range(1, nd + 1), 2))))
     while len(picks) < npairs + ntriples:
         picks.add(tuple(sorted(ctx.rng.sample(range(1, nd + 1), 3))))
     write_picks(os.path.join(sd, "s_picks.ndjson"), sorted(picks))
-    for pre in ("", "g_", "p_"):
+    for pre in ("", "g_", "p_", "k_"):
         write_picks(os.path.join(sd, pre + "picks.ndjson"), [])
+    # quick: a seeded sample of the 3-declaration sets of the small space (thorough enumerates them: MC_small3)
+    nd1 = ndecl(1)
+    small = set()
+    while not T and len(small) < 40:
+        small.add(tuple(sorted(ctx.rng.sample(range(1, nd1 + 1), 3))))
+    write_picks(os.path.join(sd, "q_picks.ndjson"), sorted(small))
     deep = set()
     nd3 = ndecl(3)
     while T and len(deep) < 450:
         deep.add(tuple(sorted(ctx.rng.sample(range(1, nd3 + 1), ctx.rng.choice([2, 3, 3])))))
     write_picks(os.path.join(sd, "t_picks.ndjson"), sorted(deep))
-    prefix = "g_" if not T else "p_"
-    W = 4 if not T else 8
+    W = 4 if not T else 6
 
     def job(j):
         kind, cfg, what = j
         if kind == "mc":
-            return ctx.tlc_exhaustive(sd, "MC_C13", cfg, timeout=1500, label=what, heap="6g", workers=W)
+            return ctx.tlc_exhaustive(sd, "MC_C13", cfg, timeout=1800, label=what, heap="6g", workers=W)
         r = ctx.tlc(sd, "MC_C13", cfg, timeout=600, label="non-vacuity: %s must be refuted" % what, workers=2)
         if r.violated is None:
             raise Broken("non-vacuity run %s was not refuted: %r" % (cfg, r))
         return r
-    parallel(job, [("mc", "MC_quick.cfg" if not T else "MC_pairs.cfg", "I=>P exhaustive + case generation"),
-                   ("mc", "GenC13.cfg", "I=>P on the seeded sample + case generation"),
-                   ] + ([("mc", "GenC13_deep.cfg", "I=>P on the seeded sample of the deeper space + case generation")] if T else []) + [
-                   ("nv", "MC_nv_o5.cfg", "method map found by Lookup (O5)"),
-                   ("nv", "MC_nv_norm.cfg", "fabricated normalised URL"),
-                   ("nv", "MC_nv_hostwild.cfg", "path wildcard swallowing host labels"),
-                   ("nv", "MC_nv_shadow.cfg", "shadow class present")], n=7)
+    jobs = [("mc", "MC_quick.cfg", "I=>P exhaustive (<= 2 declarations, small space) + case generation"),
+            ("mc", "GenC13.cfg", "I=>P on the seeded sample of the larger space + case generation")]
+    if T:
+        jobs += [("mc", "MC_pairs.cfg", "I=>P exhaustive (<= 2 declarations, larger space) + case generation"),
+                 ("mc", "MC_small3.cfg", "I=>P exhaustive (<= 3 declarations, small space) + case generation"),
+                 ("mc", "GenC13_deep.cfg", "I=>P on the seeded sample of the deeper space + case generation")]
+    else:
+        jobs += [("mc", "GenC13_small.cfg", "I=>P on the seeded sample of 3-declaration sets of the small space + case generation")]
+    jobs += [("nv", "MC_nv_o5.cfg", "method map found by Lookup (O5)"),
+             ("nv", "MC_nv_hostwild.cfg", "path wildcard swallowing host labels"),
+             ("nv", "MC_nv_collision.cfg", "host label and path segment of one text sharing a node")]
+    if T:       # (quick: the shadow class is asserted through the input-class coverage of the replayed cases)
+        jobs += [("nv", "MC_nv_norm.cfg", "fabricated normalised URL"),
+                 ("nv", "MC_nv_shadow.cfg", "shadow class present")]
+    parallel(job, jobs, n=3)       # at most 3 JVMs side by side (the box is shared)
 
-    groups = load_groups(sd, prefix) + load_groups(sd, "s_") + load_groups(sd, "t_")
+    groups = []
+    for pre in ("g_", "q_", "s_") + (("p_", "k_", "t_") if T else ()):
+        groups += load_groups(sd, pre)
     if len(groups) < 100:
         raise Broken("case generation produced %d groups" % len(groups))
     ctx.log("generated %d groups, %d cases" % (len(groups), sum(len(g["orders"]) * len(g["reqs"]) for g in groups)))
@@ -432,9 +499,10 @@ def run(ctx):
     ncases = sum(len(g["orders"]) * len(g["reqs"]) for g in groups)
     nreqs = sum(len(g["reqs"]) for g in groups)
     frac = min(1.0, (6000.0 if not T else 40000.0) / max(1, ncases + nreqs))
-    drift, blocks, nshadow = compare_and_judge(ctx, binary, groups, reals, "generated", frac, seen)
-    ctx.log("executed %d cases; %d real outcomes differ from the model's; %d in the known shadow class; %d blocks to validate"
-            % (ncases, drift, nshadow, len(blocks)))
+    drift, blocks, nshadow, modeset = compare_and_judge(ctx, binary, groups, reals, "generated", frac, seen)
+    ctx.c13_modeset = modeset
+    ctx.log("executed %d cases; %d real outcomes differ from the model's; %d in the known shadow class; %d blocks to validate; readings open: %s"
+            % (ncases, drift, nshadow, len(blocks), modeset))
     missing = [c for c in ("none", "exact-literal", "param", "wild-tail", "wild-zero", "param+wild", "method-hidden", "overlap", "shadow",
                            "winner-disabled", "host-shape", "empty-segment", "empty-segment-matched") if not ctx.cov["input_classes"].get(c)]
     if missing:
@@ -445,7 +513,7 @@ def run(ctx):
     g0, r0 = groups[len(groups) // 2], reals[len(groups) // 2]
     ctx.sample({"kind": "generated-case", "decls": describe({"decls": g0["decls"]}, g0["reqs"][1])["decls"],
                 "request": describe({"decls": []}, g0["reqs"][1])["request"], "order": g0["orders"][0],
-                "model": g0["exp"][0][1], "real": r0["orders"][0]["outs"][1]["sel"]})
+                "model": g0["exp"][0]["outs"][1] if not g0["exp"][0]["rej"] else "refused", "real": r0["orders"][0]["outs"][1]["sel"]})
     n1 = judge_blocks(ctx, binary, blocks, "generated", "gen")
     ctx.log("trace validation: %d real outcomes of generated cases accepted" % n1)
 
@@ -455,9 +523,11 @@ def run(ctx):
     rreals = execute(ctx, binary, rgroups, "rand")
     rblocks = []
     for g, real in zip(rgroups, rreals):
-        if any(o["err"] for o in real["orders"]):
-            ctx.notes.append("random configuration rejected by BuildEndpointPolicyTree: %s" % real["orders"][0]["err"][:120])
+        if all(o["err"] for o in real["orders"]):
+            ctx.notes.append("random configuration refused by BuildEndpointPolicyTree: %s" % real["orders"][0]["err"][:120])
             continue
+        if any(o["err"] for o in real["orders"]):
+            ctx.notes.append("random configuration refused in some declaration orders only: %s" % [o["err"][:80] for o in real["orders"] if o["err"]][:1])
         ctx.cov["evaluations"] += len(g["orders"]) * len(g["reqs"])
         rblocks.append(events_of(g, real, range(len(g["reqs"]))))
     ctx.sample({"kind": "recorded-trace", "events": rblocks[0][:4]})
@@ -465,10 +535,83 @@ def run(ctx):
     ctx.log("trace validation: %d real outcomes of random configurations accepted" % n2)
     if n1 + n2 == 0 and not ctx.violations:
         raise Broken("no real outcome was validated")
+    # one reading for the whole implementation: the readings left open by the validation runs must have one in common
+    common = set(modeset)
+    for fm in getattr(ctx, "c13_final_modes", []):
+        common &= fm
+    if not common and not ctx.violations:
+        ctx.notes.append("the validation runs leave no common reading (%s): judging everything under reading %d" % (
+            getattr(ctx, "c13_final_modes", []), min(modeset)))
+        ctx.c13_modeset = [min(modeset)]
+        judge_blocks(ctx, binary, blocks + rblocks, "one-reading", "one")
+        if not ctx.violations:
+            raise Broken("no common reading of the open points, but no single outcome rejected under reading %d" % min(modeset))
+    ctx.cov["readings_consistent_with_every_outcome"] = sorted(common)
+
+    # (4c) C13 with several dispatches in flight
+    storm(ctx, binary)
 
     # (5) binding self-test (thorough): corrupted recordings must be rejected
     if T:
         selftest(ctx, blocks + rblocks)
+
+
+def execute_storm(ctx, binary, groups):
+    d = ctx.sub("storm")
+    inp, outp = os.path.join(d, "groups.ndjson"), os.path.join(d, "out.ndjson")
+    with open(inp, "w") as f:
+        for g in groups:
+            f.write(json.dumps({"decls": [{"m": x["m"], "h": x["h"], "p": x["p"], "t": x["t"], "pl": x.get("pl", "on")} for x in g["decls"]],
+                                "orders": g["orders"], "reqs": g["reqs"]}) + "\n")
+    ctx.run_harness(binary, ["storm", inp, outp], timeout=900)
+    return [json.loads(l) for l in open(outp) if l.strip()]
+
+
+def storm_events(g, r):
+    ev = [{"ev": "group", "decls": [{"m": x["m"], "h": x["h"], "p": x["p"], "r": x["r"], "g": x["g"], "pl": x.get("pl", "on")} for x in g["decls"]]}]
+    for rq, outs in zip(g["reqs"], r["outs"]):
+        for o in outs:
+            ev.append({"ev": "req", "m": rq["m"], "h": rq["h"], "p": rq["p"]})
+            ev.append({"ev": "out", "ord": g["orders"][0], "sel": o["sel"], "dsel": o["dsel"],
+                       "lk": {"match": o["lk"]["match"], "norm": o["lk"]["norm"], "params": o["lk"]["params"]}})
+    return ev
+
+
+def storm(ctx, binary):
+    """C13 with several dispatches in flight: 8 goroutines dispatch the requests of a configuration simultaneously through
+    the real getRemedies / getDiagnoses, yield, then read what they were given; every DISTINCT outcome any of them saw
+    for a request is judged on its own by the sequential property spec (trace validation)."""
+    T = ctx.thorough
+    groups = []
+    for _ in range(8 if not T else 60):
+        g = rand_group(ctx.rng, 12)
+        # many different endpoints with something to select: every request hits another declaration
+        for d in g["decls"]:
+            d["pl"] = "on"
+        g["orders"] = g["orders"][:1]
+        groups.append(g)
+    res = execute_storm(ctx, binary, groups)
+    blocks, ndist, nmulti = [], 0, 0
+    for g, r in zip(groups, res):
+        if r["err"]:
+            continue
+        ev = [{"ev": "group", "src": len(ctx.__dict__.setdefault("c13_storm_groups", [])),
+               "decls": [{"m": x["m"], "h": x["h"], "p": x["p"], "r": x["r"], "g": x["g"], "pl": x["pl"]} for x in g["decls"]]}]
+        ctx.c13_storm_groups.append({"decls": g["decls"], "orders": g["orders"], "reqs": g["reqs"]})
+        for rq, outs in zip(g["reqs"], r["outs"]):
+            nmulti += len(outs) > 1
+            for o in outs:
+                ndist += 1
+                ev.append({"ev": "req", "m": rq["m"], "h": rq["h"], "p": rq["p"]})
+                ev.append({"ev": "out", "ord": g["orders"][0], "sel": o["sel"], "dsel": o["dsel"],
+                           "lk": {"match": o["lk"]["match"], "norm": o["lk"]["norm"], "params": o["lk"]["params"]}})
+        blocks.append(ev)
+    if not blocks:
+        raise Broken("no configuration of the concurrent-dispatch storm was loaded")
+    ctx.cov["evaluations"] += sum(len(g["reqs"]) for g in groups) * 8 * 40
+    n = judge_blocks(ctx, binary, blocks, "concurrent-dispatch", "storm", reproduce=False)
+    ctx.log("concurrent dispatches: %d configurations, 8 goroutines x 40 rounds, %d distinct outcomes (%d requests with more than one) accepted: %d"
+            % (len(blocks), ndist, nmulti, n))
 
 
 def selftest(ctx, blocks):
@@ -512,6 +655,18 @@ def selftest(ctx, blocks):
 def replay(ctx, path):
     obj = json.load(open(path))
     binary = ctx.build_harness("c13")
+    if obj["replay"].get("storm_group"):
+        # a concurrent recording: the storm is run again (up to 20 times) on the stored configuration
+        g = obj["replay"]["storm_group"]
+        for attempt in range(20):
+            r = execute_storm(ctx, binary, [g])[0]
+            _, rej, _ = tlc_validate(ctx, [storm_events(g, r)], "replay", strict=False)
+            if rej:
+                print("VIOLATION property=C13 replay=%s" % path)
+                print("   rejected (attempt %d): %s" % (attempt + 1, json.dumps(rej[0]["outs"][rej[0]["at"]])[:400]))
+                return 1
+        print("replay: 20 storms accepted by the specification")
+        return 0
     g = obj["replay"]["group"]
     real = execute(ctx, binary, [g], "replay")[0]
     gg = dict(g, decls=[dict(d, r=d.get("r", "d%d" % (i + 1)), g=d.get("g", "g%d" % (i + 1))) for i, d in enumerate(g["decls"])])
